@@ -89,9 +89,9 @@ def gen_layout(ch, label, kind, name, desc, rich):
 DOCSTYLE_P = float(os.environ.get("DTSIM_DOCSTYLE_P", "0.15"))
 
 
-def gen_style(ch, label):
+def gen_style(ch, label, body_p=0.3):
     body = None
-    if ch.chance(label + ".body", 0.3):
+    if ch.chance(label + ".body", body_p):
         # statements that are not part of the interface, annotated local assignments among them
         body = ch.choice(label + ".bodyv", [["total = 0", "print('working')"], ["loss: float = 0.0", "seen: list = []", "print(loss, seen)"],
                                             ["count: int", "count = 1", "print(count)"]])
@@ -109,7 +109,8 @@ class Project(object):
     def __init__(self, ch, focus):
         self.ch = ch
         rich = focus in ("C11", "C09")
-        self.versions = [render.gen_desc(ch, "conservative" if ch.chance("profile", 0.8) else "wide", 1, 4)]
+        # (C11's last clause is about function bodies: more carried bodies, second function files and docstring-only return defaults)
+        self.versions = [render.gen_desc(ch, "conservative" if ch.chance("profile", 0.8) else "wide", 1, 4, retdoc_p=0.25 if focus == "C11" else None)]
         self.cur = 0
         self.names = {"class": ch.choice("cname", CLASS_NAMES), "argparse_function": "set_cli_args"}
         fname = ch.choice("fname", FUNC_NAMES)
@@ -119,11 +120,11 @@ class Project(object):
         base = {"class": "cls.py", "function": "fn.py", "argparse_function": "ap.py"}
         for kind in KINDS:
             rels = [base[kind]]
-            if ch.chance("second." + kind, 0.12):
+            if ch.chance("second." + kind, 0.35 if focus == "C11" and kind == "function" else 0.12):
                 rels.append(base[kind].replace(".py", "2.py"))
             for rel in rels:
                 self.files[rel] = {"kind": kind, "layout": gen_layout(ch, rel, kind, self.names[kind], self.versions[0], rich),
-                                   "style": gen_style(ch, rel + ".style")}
+                                   "style": gen_style(ch, rel + ".style", body_p=0.6 if focus == "C11" else 0.3)}
                 self.by_kind[kind].append(rel)
         self.crlf = {rel for rel in sorted(self.files) if ch.chance("crlf." + rel, 0.06)}
         # two kinds may live in one file: the class file is then also named as a file of the function kind
@@ -640,9 +641,13 @@ def cli_row(proj, ch, lab, row):
     return pre, {"op": "cli", "argv": argv, "expect": exp, "why": row, "files": files}
 
 
+PATTERN_LEVELS = 4  # an option is absent, or given once, twice or three times
+N_PATTERNS = PATTERN_LEVELS ** 6 * 3
+
+
 def sync_pattern_rows(proj, patterns):
-    """Rows of the full `sync` invocation table (DESIGN §3.2): every presence pattern (absent / once / twice) of the three
-    file options and the three name options x the three --truth values.  `patterns`: iterable of indices in [0, 3**6 * 3).
+    """Rows of the full `sync` invocation table (DESIGN §3.2): every presence pattern (absent / once / twice / three times) of
+    the three file options and the three name options x the three --truth values.  `patterns`: indices in [0, N_PATTERNS).
     The expected class of a row is derived from the documented command-line rules only:
       reject  - no file option for the truth kind, or fewer than two files in total;
       either  - a file option without its name option (a usage error or a successful run are both fine, an internal error is not);
@@ -652,29 +657,31 @@ def sync_pattern_rows(proj, patterns):
     flag = {"argparse_function": "--argparse-function", "class": "--class", "function": "--function"}
     base = {k: proj.by_kind[k][0] for k in kinds}
     second = {k: base[k].replace(".py", "_b.py") for k in kinds}
+    third = {k: base[k].replace(".py", "_c.py") for k in kinds}
     pre = []
     for k in kinds:
         pre.append({"op": "env", "path": base[k], "text": proj.text(base[k]), "label": "table_setup"})
         pre.append({"op": "env", "path": second[k], "text": proj.text(base[k]), "label": "table_setup"})
+        pre.append({"op": "env", "path": third[k], "text": proj.text(base[k]), "label": "table_setup"})
     ops = list(pre)
     for idx in patterns:
         t = kinds[idx % 3]
         rest = idx // 3
         counts = []
         for _ in range(6):
-            counts.append(rest % 3)
-            rest //= 3
+            counts.append(rest % PATTERN_LEVELS)
+            rest //= PATTERN_LEVELS
         fcount = dict(zip(kinds, counts[:3]))
         ncount = dict(zip(kinds, counts[3:]))
         argv = ["sync", "--truth", t]
         files = []
         for k in kinds:
             for j in range(fcount[k]):
-                rel = base[k] if j == 0 else second[k]
+                rel = (base[k], second[k], third[k])[j]
                 argv += [flag[k], W + rel]
                 files.append(rel)
             for j in range(ncount[k]):
-                argv += [flag[k] + "-name", proj.names[k] if j == 0 else proj.names[k] + "Other"]
+                argv += [flag[k] + "-name", proj.names[k] if j != 1 else proj.names[k] + "Other"]
         total = sum(fcount.values())
         if fcount[t] == 0 or total < 2:
             exp = "reject"
